@@ -14,3 +14,17 @@ Proof. vm_compute. reflexivity. Qed.
     eviction must not be served the older result through the weak-reference side table). *)
 Lemma put_clears_ref_ok : put_clears_ref = Some true.
 Proof. vm_compute. reflexivity. Qed.
+
+From Memento Require Import Storage.Cache Storage.Spec Storage.Layer Storage.LayerProofs.
+
+Definition current_pcfg : pcfg :=
+  {| p_evict_first := match put_evicts_first with Some b => b | None => false end;
+     p_clear_ref := match put_clears_ref with Some b => b | None => false end |}.
+
+(** C05 for the code as it is now: the cache in front of a dictionary-like store is invisible. *)
+Theorem current_source_cache_transparent : forall nsz b ops,
+  Forall wfop ops -> lrun current_pcfg nsz (linit b) ops = drun dempty ops.
+Proof.
+  intros. apply cache_layer_refines_dict_from_empty; try assumption;
+    unfold current_pcfg; rewrite ?put_evicts_first_ok, ?put_clears_ref_ok; reflexivity.
+Qed.
